@@ -484,6 +484,24 @@ func Gen(t *rapid.T, tier string) any {
 			}
 			oneOfAKind(op.Reqs)
 			sc.Ops = append(sc.Ops, op)
+			// The request ids of the new proxy start again from 1: often follow
+			// the phase with at least as many plain requests as were received
+			// before it, so that every id in use before comes round again.
+			if rapid.Bool().Draw(t, "par_then_plain") {
+				before := 0
+				for _, o := range sc.Ops {
+					before += len(o.Reqs)
+				}
+				if before > 45 {
+					before = 45
+				}
+				b := Op{Kind: "burst"}
+				for j := 0; j < before+3; j++ {
+					b.Reqs = append(b.Reqs, Req{Proto: rapid.SampledFrom([]string{"udp", "tcp", "dnscrypt"}).Draw(t, "plain_proto"), Src: rapid.IntRange(0, len(sources)-1).Draw(t, "plain_src")})
+					b.Order = append(b.Order, j)
+				}
+				sc.Ops = append(sc.Ops, b)
+			}
 		case k <= 5:
 			sc.Ops = append(sc.Ops, Op{Kind: "req", Reqs: []Req{genReq(t, sc.ServerName)}})
 		default:
